@@ -16,6 +16,7 @@
 broken down in several modules if needed.
 """
 
+import copy
 from math import sqrt
 from collections import OrderedDict
 
@@ -59,7 +60,9 @@ class FermionOperator(of.FermionOperator):
             return super(FermionOperator, self).__imul__(other)
 
     def __mul__(self, other):
-        return self.__imul__(other)
+        product = copy.deepcopy(self)
+        product *= other
+        return product
 
     def __iadd__(self, other):
         if isinstance(other, FermionOperator):
@@ -85,19 +88,23 @@ class FermionOperator(of.FermionOperator):
             raise RuntimeError(f"You cannot add FermionOperator and {other.__class__}.")
 
     def __add__(self, other):
-        return self.__iadd__(other)
+        summand = copy.deepcopy(self)
+        summand += other
+        return summand
 
     def __radd__(self, other):
-        return self.__iadd__(other)
+        return self.__add__(other)
 
     def __isub__(self, other):
         return self.__iadd__(-1. * other)
 
     def __sub__(self, other):
-        return self.__isub__(other)
+        minuend = copy.deepcopy(self)
+        minuend -= other
+        return minuend
 
     def __rsub__(self, other):
-        return -1 * self.__isub__(other)
+        return -1 * self.__sub__(other)
 
     def __eq__(self, other):
         # Additional checks for == operator.
